@@ -4,7 +4,6 @@ import (
 	"fmt"
 	"math/rand"
 
-	"github.com/EliCDavis/polyform/math/quaternion"
 	"github.com/EliCDavis/polyform/math/trs"
 	"github.com/EliCDavis/vector/vector3"
 	"polyverif/internal/run"
@@ -145,9 +144,9 @@ func trsCase(c *run.Ctx) run.Result {
 			// which order would explain it?
 			rot := quatMatrix(g.q)
 			alt := map[string]v3{
-				"S(R v)+T":   vadd(vmul(g.s, rot.apply(p)), g.t),
-				"R(S(v+T))":  rot.apply(vmul(g.s, vadd(p, g.t))),
-				"R(S v + T)": rot.apply(vadd(vmul(g.s, p), g.t)),
+				"S(R v)+T":    vadd(vmul(g.s, rot.apply(p)), g.t),
+				"R(S(v+T))":   rot.apply(vmul(g.s, vadd(p, g.t))),
+				"R(S v + T)":  rot.apply(vadd(vmul(g.s, p), g.t)),
 				"R^-1(S v)+T": vadd(transpose3(rot).apply(vmul(g.s, p)), g.t),
 			}
 			hint := ""
@@ -197,5 +196,3 @@ func transpose3(m m3) (t m3) {
 	}
 	return
 }
-
-var _ = quaternion.Identity
